@@ -125,6 +125,80 @@ fn main() {
                              "alt_hist": alt_hist, "allocs": allocs, "fails": fails});
             std::fs::write(&args[3], serde_json::to_string(&rep).unwrap()).unwrap();
         }
+        "parsex" => {
+            // raw REPLAY lines of MCScpiSyntax: <<"REPLAY", "{\"x\":[..],\"exp\":[[alts per start]..]}">>
+            // args: parsex <raw> <report> <iface> <starts json: [[[bytes]..]..]>
+            let iface = args.get(4).cloned().unwrap_or_else(|| "main".into());
+            let starts: J = serde_json::from_str(args.get(5).map(|s| s.as_str()).unwrap_or("[[]]")).unwrap();
+            let starts: Vec<Vec<String>> = starts
+                .as_array()
+                .unwrap()
+                .iter()
+                .map(|st| st.as_array().unwrap().iter().map(|m| String::from_utf8(cases::jbytes(m)).unwrap()).collect())
+                .collect();
+            let root = duts.get(&iface).root();
+            let (mut total, mut ok, mut nontrivial, mut nfail, mut skipped) = (0u64, 0u64, 0u64, 0u64, 0u64);
+            let mut fails: Vec<J> = Vec::new();
+            let norm = |sig: &mut J| {
+                if let Some(ch) = sig.get_mut("ch").and_then(|c| c.as_array_mut()) {
+                    let mut v: Vec<Vec<u8>> = ch.iter().map(cases::jbytes).collect();
+                    v.sort();
+                    *ch = v.iter().map(|b| rec::bytes(b)).collect();
+                }
+            };
+            for line in reader.lines() {
+                let line = line.unwrap();
+                let Some(rest) = line.strip_prefix("<<\"REPLAY\", ") else { continue };
+                let Some(lit) = rest.strip_suffix(">>") else { continue };
+                let inner: String = serde_json::from_str(lit).unwrap_or_else(|e| {
+                    eprintln!("harness: bad REPLAY literal: {e}");
+                    std::process::exit(2)
+                });
+                let item: J = serde_json::from_str(&inner).unwrap();
+                let x = cases::jbytes(&item["x"]);
+                *current.lock().unwrap() = inner.clone();
+                for (si, st) in starts.iter().enumerate() {
+                    let mut alts = item["exp"][si].as_array().cloned().unwrap_or_default();
+                    if alts.is_empty() {
+                        skipped += 1;
+                        continue;
+                    }
+                    for a in alts.iter_mut() {
+                        if a["v"] == "acc" {
+                            norm(&mut a["node"]);
+                            if a["com"] == true {
+                                a["hdr"] = J::Null;
+                            }
+                            else {
+                                norm(&mut a["hdr"]);
+                            }
+                            a["suffix"] = json!(true);
+                        }
+                        else if a["v"] == "empty" {
+                            a["suffix"] = json!(true);
+                        }
+                    }
+                    let obs = dut::parse_obs(root, st, &x);
+                    progress.fetch_add(1, Ordering::Relaxed);
+                    total += 1;
+                    if obs["v"] == "acc" {
+                        nontrivial += 1;
+                    }
+                    if alts.iter().any(|a| cases::matches(a, &obs)) {
+                        ok += 1;
+                    }
+                    else {
+                        nfail += 1;
+                        if fails.len() < max_fail {
+                            fails.push(json!({"case": {"kind": "parse", "iface": iface, "in": item["x"],
+                                "start": st.iter().map(|m| rec::bytes(m.as_bytes())).collect::<Vec<_>>(), "exp": alts}, "obs": obs}));
+                        }
+                    }
+                }
+            }
+            let rep = json!({"total": total, "ok": ok, "fail": nfail, "nontrivial": nontrivial, "skipped": skipped, "fails": fails});
+            std::fs::write(&args[3], serde_json::to_string(&rep).unwrap()).unwrap();
+        }
         "exec" => {
             let mut out = BufWriter::new(std::fs::File::create(&args[3]).unwrap());
             for line in reader.lines() {
